@@ -1,8 +1,9 @@
 """C09 witnesses.  The one recorded finding of C09 (df-23976) is expected to fail and is exercised through
 harness/c09.py finding_witnesses; the witnesses of the repaired defects (`fixed:` lines of KNOWN_FINDINGS.txt:
 tcp-attribute-error 9e84fe8, mnr-sets-start-offset 41b1329, sn-identity 434048d, and - second phase - tnb-zero-division,
-cumulative-before-first, tf-strip-not-cut, comment-flag-ignored, iso6937-a4, blank-row-dropped, vp-zero-above-safe-area;
-zero-row-count is the C09 side of C18's repaired stl-zero-row-count) and the regression witnesses below must pass: each checks what the specification prescribes on the input that used to
+cumulative-before-first, tf-strip-not-cut, comment-flag-ignored, iso6937-a4, blank-row-dropped, vp-zero-above-safe-area,
+start-tc-non-string; zero-row-count is the C09 side of C18's repaired stl-zero-row-count; config-start-complete-time-code, config-rows-not-bool,
+config-flags-strict are the C09 side of C19's repaired start-tc-trailing-text, max-row-count-bool, bool-decoders-accept-anything) and the regression witnesses below must pass: each checks what the specification prescribes on the input that used to
 fail."""
 import os, re
 from witnesses import witness
@@ -24,7 +25,7 @@ def _mk(fid):
 
 
 FIXED = ("tcp-attribute-error", "mnr-sets-start-offset", "sn-identity", "tnb-zero-division", "cumulative-before-first",
-         "tf-strip-not-cut", "comment-flag-ignored", "iso6937-a4", "blank-row-dropped", "vp-zero-above-safe-area")
+         "tf-strip-not-cut", "comment-flag-ignored", "iso6937-a4", "blank-row-dropped", "vp-zero-above-safe-area", "start-tc-non-string")
 for _fid in sorted(_listed()):
     if _fid not in FIXED:
         witness("C09", _fid)(_mk(_fid))
@@ -192,3 +193,83 @@ def _():
     if r[0] != "ok" or r[1]["regions"] != ref[1]["regions"]: return f"teletext with MNR 00: {r[:2]}"
     r = c09.run_reader(c09.gsi(dsc=b"0", mnr=b"01") + c09.tti(vp=1), dict(_BASE, rows="MNR"))
     if r[0] != "ok" or abs(r[1]["regions"][0][3] - 80) > Fraction(1, 10**9): return f"MNR 01 is not one row: {r[:2]}"
+
+
+# ---- STLReaderConfiguration.parse after the repairs made for C19 (start-tc-trailing-text, max-row-count-bool,
+# ---- bool-decoders-accept-anything): C09_config_start_accepts / _no_trailing, C09_config_rows_accepts / _bool, C09_config_flag_accepts
+def _parse(d):
+    from ttconv.stl.config import STLReaderConfiguration
+    try: return STLReaderConfiguration.parse(d)
+    except ValueError: return "ValueError"
+    except Exception as e: return f"{type(e).__name__}: {e}"
+
+
+@witness("C09", "config-start-complete-time-code")
+def _():
+    import c09
+    from fractions import Fraction
+    for v in ("10:00:00:00xyz", "10:00:00:00 ", "10:00:00:00\n", "10:00:00:00:00", "10:00:00:000", " 10:00:00:00", "10:00:00", "1:0:0:0", "10:00:00:0",
+              "TCP ", "TCPx", "", "\u0661\u0660:00:00:00", "10\n00:00:00"):
+        r = _parse({"program_start_tc": v})
+        if r != "ValueError": return f"program_start_tc={v!r}: expected ValueError, got {r!r}"
+    for v, want in (("10:00:00:00", "10:00:00:00"), ("10;00;00;00", "10;00;00;00"), ("10:00:00;00", "10:00:00;00"), ("TCP", "TCP"), ("tcp", "TCP"),
+                    ("tCp", "TCP"), (None, None)):
+        r = _parse({"program_start_tc": v})
+        if isinstance(r, str) or r.program_start_tc != want: return f"program_start_tc={v!r}: expected {want!r}, got {r!r}"
+    # a parsed start is one the reader can use: the subtitle at 10:00:01:00 of a 10:00:00:00 programme begins at 1 s
+    conf = _parse({"program_start_tc": "10:00:00:00"})
+    r = c09.run_reader(c09.gsi() + c09.tti(tci=(10, 0, 1, 0), tco=(10, 0, 2, 0)), dict(_BASE, start=conf.program_start_tc))
+    ps = _paras(r)
+    if ps is None or len(ps) != 1 or ps[0][4] != (Fraction(1), Fraction(2)): return f"subtitle not shifted by the parsed programme start: {r[:2]}"
+
+
+@witness("C09", "config-rows-not-bool")
+def _():
+    for v in (True, False, "23", "23 ", "", "MNR ", "MN", 23.0, 1.5, [23], {"a": 1}):
+        r = _parse({"max_row_count": v})
+        if r != "ValueError": return f"max_row_count={v!r}: expected ValueError, got {r!r}"
+    for v, want in ((23, 23), (0, 0), (-3, -3), (2 ** 40, 2 ** 40), ("MNR", "MNR"), ("mnr", "MNR"), ("mNr", "MNR"), (None, None)):
+        r = _parse({"max_row_count": v})
+        if isinstance(r, str) or r.max_row_count != want or isinstance(r.max_row_count, bool): return f"max_row_count={v!r}: expected {want!r}, got {r!r}"
+
+
+@witness("C09", "config-flags-strict")
+def _():
+    import c09
+    for key in ("disable_fill_line_gap", "disable_line_padding"):
+        for v in (None, 0, 1, "true", "false", "no", "", "True", 1.0, [], [False], {}):
+            r = _parse({key: v})
+            if r != "ValueError": return f"{key}={v!r}: expected ValueError, got {r!r}"
+        for v in (True, False):
+            r = _parse({key: v})
+            if isinstance(r, str) or getattr(r, key) is not v: return f"{key}={v!r}: got {r!r}"
+        r = _parse({})
+        if isinstance(r, str) or getattr(r, key) is not False: return f"{key} absent: got {r!r}"
+    # all four keys at once, and the parsed flags reach the document like the directly constructed configuration
+    conf = _parse({"disable_fill_line_gap": True, "program_start_tc": "tcp", "disable_line_padding": True, "max_row_count": 11})
+    if isinstance(conf, str) or (conf.disable_fill_line_gap, conf.program_start_tc, conf.disable_line_padding, conf.max_row_count, conf.font_stack) != (True, "TCP", True, 11, None):
+        return f"four keys: {conf!r}"
+    f = c09.gsi(dsc=b"0") + c09.tti(vp=5)
+    a = c09.run_reader(f, dict(_BASE, start=conf.program_start_tc, rows=conf.max_row_count, nofill=conf.disable_fill_line_gap, nopad=conf.disable_line_padding))
+    b = c09.run_reader(f, dict(_BASE, start="TCP", rows=11, nofill=True, nopad=True))
+    if a[0] != "ok" or a[:2] != b[:2]: return f"parsed configuration and constructed configuration give different documents: {a[:2]} / {b[:2]}"
+    # the first decoder that fails decides: a bad flag before a bad start is a ValueError
+    r = _parse({"disable_fill_line_gap": "no", "program_start_tc": "10:00:00:00x"})
+    if r != "ValueError": return f"two bad keys: {r!r}"
+
+
+# ---- start-tc-non-string (repaired in the lab repo 06e3dc7; C09_config_start_non_string, C09_config_errors): a program_start_tc or a
+# ---- font_stack that is not a string is a ValueError like every other malformed value (AttributeError / TypeError before)
+@witness("C09", "start-tc-non-string")
+def _():
+    for key in ("program_start_tc", "font_stack"):
+        for v in (True, False, 0, 5, 1.5, [], ["TCP"], ["10:00:00:00"], {"a": 1}):
+            r = _parse({key: v})
+            if r != "ValueError": return f"{key}={v!r}: expected ValueError, got {r!r}"
+        r = _parse({key: None})
+        if isinstance(r, str) or getattr(r, key) is not None: return f"{key}=null: got {r!r}"
+    for v in ([], [23], {"a": 1}, 1.5):
+        r = _parse({"max_row_count": v})
+        if r != "ValueError": return f"max_row_count={v!r}: expected ValueError, got {r!r}"
+    r = _parse({"font_stack": "Arial, sansSerif"})
+    if isinstance(r, str) or len(r.font_stack) != 2 or r.font_stack[0] != "Arial": return f"font_stack string: got {r!r}"
